@@ -15,9 +15,22 @@ Partial aspects (kept visible):
 -/
 import KafkaVerif.Lemmas.Commit
 import KafkaVerif.Model.GroupStart
+import KafkaVerif.Gen.GroupFacts
 
 namespace KV.Commit.C03
 open KV.Commit
+
+/-! ### regenerated tie: the statements the model mirrors, re-read from the source on every run -/
+
+/-- `makeCommit` adds the extracted literal (1), `commitOffsetsWithRetry` is called with the extracted number of
+retries, `offsetStash.merge` keeps the greater offset (`c.offset > offset`), `fetchOffsets` replaces exactly the
+negative offsets (`offset < 0`) by StartOffset. -/
+theorem model_matches_source :
+    (∀ m : TP × Int, (makeCommit m).offset = m.2 + KV.Gen.Group.makeCommitAddend) ∧
+    retries = KV.Gen.Group.commitRetries ∧
+    KV.Gen.Group.mergeOp = ">" ∧
+    KV.Gen.Group.fetchNegativeTest = ("<", "0") := by
+  refine ⟨fun m => rfl, by decide, by decide, by decide⟩
 
 /-! ### commit_le_handed -/
 
